@@ -120,14 +120,193 @@ def expected_lines(stmt):
     return v3, v1
 
 
-def run(ctx):
+def user_gate_set(funcs):
+    return [funcs[n] for n in gen.GATE_SIG if n in funcs and n not in ("Hadamard", "Identity", "measure", "measure_z", "reset")]
+
+
+def user_position(specs):
+    """where the user gate is (the circuits of the suite hold exactly one; a shrunk record may have moved it)"""
+    return next(i for i, sp in enumerate(specs) if sp[0] == "named" and sp[1] in USER_SIG)
+
+
+def build_through_builder(ctx, case, funcs):
+    """the circuit through the builder (accepted when listed in the gate set) and directly -> (circuit, reference) or None"""
     from opensquirrel import CircuitBuilder
-    from opensquirrel.exporter.export_format import ExportFormat
     from opensquirrel.ir import Bit, Float
 
+    nq, specs = case["nq"], case["specs"]
+    b = CircuitBuilder(nq, 1, gate_set=user_gate_set(funcs))
+    try:
+        for sp in specs:
+            if sp[0] == "named":
+                sig = gen.GATE_SIG[sp[1]]
+                conv = [Float(a) if k == "f" else a for a, k in zip(sp[2], sig)]
+                getattr(b, sp[1])(*conv)
+            elif sp[0] in ("measure", "measure_z"):
+                getattr(b, sp[0])(sp[1], Bit(sp[2]))
+            elif sp[0] == "reset":
+                b.reset(sp[1])
+            elif sp[0] == "comment":
+                b.comment(sp[1])
+            else:
+                b.ir.add_gate(gen.build_stmt(sp, funcs))
+        c = b.to_circuit()
+    except Exception as e:  # noqa: BLE001
+        ctx.oracle_fail("user", case, f"builder refused a listed user gate: {type(e).__name__}: {e}", None)
+        return None
+    ref = gen.build_circuit(nq, 1, specs, funcs)
+    if ser.struct_diff(implrun.canon_post(c.ir.statements), implrun.canon_post(ref.ir.statements), 0):
+        ctx.oracle_fail("user", case, "builder and direct construction disagree", None)
+        return None
+    return c, ref
+
+
+def check_user_pass(ctx, case, c, ref, perm, funcs):
+    """the recorded pass on the circuit holding a user gate: operation, name and arguments, text outputs.
+    perm: the permutation drawn for a mapping pass (recorded with the case for the replay)"""
+    from opensquirrel.exporter.export_format import ExportFormat
+
+    nq, specs, p = case["nq"], case["specs"], case["pass"]
+    pos = user_position(specs)
+    u = specs[pos]
+    case = {**case, "perm": perm}
+    before = list(c.ir.statements)
+    ustmt = before[pos]
+    uname, uargs = ustmt.generator.__name__, ser.canon_args(ustmt.arguments)
+    pre_ser = ser.ser_stmts(c.ir.statements)
+    err = None
+    called = []
+    try:
+        if p is None:
+            pass
+        elif p[0] == "map":
+            implrun.apply_pass(c, ["map", perm])
+        elif p[0] == "replace_user":
+            def rule(*args):
+                called.append(args)
+                return [funcs[uname](*args)]
+            c.replace(funcs[uname], rule)
+        else:
+            implrun.apply_pass(c, p)
+    except Exception as e:  # noqa: BLE001
+        err = implrun.errkind(e)
+    after = list(c.ir.statements)
+    # model correspondence for the passes the model has
+    eq = None
+    if p is not None and p[0] in ("decompose", "merge", "map"):
+        mp = ["map", perm] if p[0] == "map" else p
+        (margin, r), = model.call_many([implrun.model_request(mp, nq, pre_ser)])
+        merr, mpost = implrun.model_outcome(mp, r)
+        d = None
+        if (err is None) != (merr is None):
+            d = f"impl error={err} model error={merr}"
+        elif mpost is not None:
+            d = ser.struct_diff(implrun.canon_post(after), mpost, 3e-7)
+        if d:
+            ctx.disagree("user", case, d, margin)
+        eq = d is None
+    if err is not None:
+        return        # decomposition failures are C01's concern
+    # --- operation preserved (treated purely through its operation)
+    qperm = {q: perm[q] for q in range(nq)} if p and p[0] == "map" else None
+    # mapping mutates the statement objects in place: compare with the independently built reference circuit
+    ok, why = oracles.kraus_equivalent(list(ref.ir.statements), after, 3e-5 * (1 + len(after)), qubit_perm=qperm)
+    if not ok:
+        ctx.oracle_fail("user", case, "operation changed: " + why, eq)
+        return
+    # --- name and arguments kept by passes that do not rewrite it; relabelled in both descriptions by mapping
+    survivors = [s for s in after if s is ustmt]
+    rewritten_ok = p is not None and ((p[0] == "decompose" and scope_rewrites(p[1], ustmt)) or
+                                        (p[0] == "merge" and type(ustmt).__name__ == "BlochSphereRotation") or p[0] == "replace_user")
+    if not survivors and not rewritten_ok:
+        ctx.oracle_fail("user", case, "the user gate disappeared in a pass that does not rewrite it", eq)
+        return
+    if p and p[0] == "replace_user":
+        if len(called) != 1 or ser.canon_args(called[0]) != uargs:
+            ctx.oracle_fail("user", case, f"replace() keyed on the user gate called the rule {len(called)} times / with other arguments", eq)
+            return
+    for s in survivors:
+        if s.generator.__name__ != uname:
+            ctx.oracle_fail("user", case, "user gate lost its name", eq)
+        want_args = uargs
+        if p and p[0] == "map":
+            want_args = [("q", perm[a[1]]) if a[0] == "q" else a for a in uargs]
+            if oracles.stmt_qubits(s) != [perm[q] for q in gen.spec_qubits(u)]:
+                ctx.oracle_fail("user", case, "mapping did not relabel the user gate's semantic qubits", eq)
+        if ser.canon_args(s.arguments) != want_args:
+            ctx.oracle_fail("user", case, f"user gate arguments {ser.canon_args(s.arguments)} != {want_args}", eq)
+    # --- text outputs: one well-formed line per gate
+    named_only = all(getattr(s, "arguments", 1) is not None for s in after if oracles.is_gate(s))
+    txt = str(c)
+    (m3, r3), = model.call_many([["write3", nq, 1, ser.ser_stmts(after)]])
+    mv = ser.canon(r3)
+    from harness.props.text_common import normalize_anonymous
+
+    if not (mv[0] == "ok" and mv[1][1] == normalize_anonymous(txt)):
+        ctx.disagree("user_text", case, f"cQASM 3 text differs from the model's:\n{txt}\n---\n{mv}")
+    lines3 = txt.split("\n")
+    for s in survivors:
+        v3, v1 = expected_lines(s)
+        if v3 not in lines3:
+            ctx.oracle_fail("user_text", case, f"cQASM 3 line `{v3}` not written:\n{txt}", eq)
+            break
+        if named_only:
+            t1 = c.export(ExportFormat.CQASM_V1)
+            if v1 not in t1.split("\n"):
+                ctx.oracle_fail("user_text", case, f"cQASM 1 line `{v1}` not written:\n{t1}", eq)
+                break
+
+
+def equality_request(x, y):
+    return ["gate_eq", ser.ser_gate(x), ser.ser_gate(y)]
+
+
+def check_user_equality(ctx, case, want, x, y, mres):
+    mg, mr = mres
+    ctx.seen(case)
+    case = {**case, "equal_operations": want}        # as recorded: with the answer the oracle expects
+    got = bool(x == y)
+    mv = ser.canon(mr)
+    eqm = mv[0] == "ok" and (mv[1] == "true") == got
+    if not eqm:
+        ctx.disagree("user_equality", case, f"impl {got} model {mv}", mg)
+    if got != want or bool(y == x) != want:
+        ctx.oracle_fail("user_equality", case, f"== is {got} / {bool(y == x)}, the operations are {'equal' if want else 'different'}", eqm)
+
+
+def check_same_name(ctx, case, funcs):
+    """two programs of one process define a gate of the same name differently: each builder must build ITS definition"""
+    from opensquirrel import CircuitBuilder
+    from opensquirrel.ir import BlochSphereRotation, Float, QubitLike, named_gate
+
+    gate_set = user_gate_set(funcs)
+    ax_a, ax_b, t = tuple(case["axis_a"]), tuple(case["axis_b"]), case["theta"]
+
+    def mk(ax):
+        @named_gate
+        def tilt(q: QubitLike, theta: Float) -> BlochSphereRotation:
+            return BlochSphereRotation(qubit=q, axis=ax, angle=theta.value, phase=0)
+        return tilt
+    fa, fb = mk(ax_a), mk(ax_b)
+    ba = CircuitBuilder(2, gate_set=[*gate_set, fa])
+    ba.tilt(0, Float(t))
+    bb = CircuitBuilder(2, gate_set=[*gate_set, fb])
+    bb.tilt(1, Float(t))
+    ctx.seen(case)
+    ga, gb = ba.to_circuit().ir.statements[0], bb.to_circuit().ir.statements[0]
+    ok = np.allclose(ga.axis.value, ax_a) and np.allclose(gb.axis.value, ax_b) and gb.generator is fb and ga.generator is fa
+    if not ok:
+        ctx.oracle_fail("user", case, "a builder built another gate set's definition of a gate with the same name", None)
+    try:
+        CircuitBuilder(2).tilt(0, Float(t))
+        ctx.oracle_fail("user", case, "a builder accepted a user gate that is not in its gate set", None)
+    except Exception:  # noqa: BLE001
+        pass
+
+
+def run(ctx):
     rng = ctx.rng
     funcs = user_functions()
-    gate_set = [funcs[n] for n in gen.GATE_SIG if n in funcs and n not in ("Hadamard", "Identity", "measure", "measure_z", "reset")]
     ctx.rule("a family of user gates with 1..3 qubit parameters under arbitrary names, 0..3 Float/int parameters in any "
              "position, rotation / controlled / matrix semantics, at every position of circuits that also contain default "
              "gates, measurements and resets; through the builder, every pass, both text outputs and replace() keyed on the "
@@ -145,117 +324,12 @@ def run(ctx):
         n_cases += 1
         ctx.seen(case)
         ctx.bump("user_" + u[1])
-        # --- through the builder (accepted when listed in the gate set)
-        b = CircuitBuilder(nq, 1, gate_set=gate_set)
-        try:
-            for sp in specs:
-                if sp[0] == "named":
-                    sig = gen.GATE_SIG[sp[1]]
-                    conv = [Float(a) if k == "f" else a for a, k in zip(sp[2], sig)]
-                    getattr(b, sp[1])(*conv)
-                elif sp[0] in ("measure", "measure_z"):
-                    getattr(b, sp[0])(sp[1], Bit(sp[2]))
-                elif sp[0] == "reset":
-                    b.reset(sp[1])
-                elif sp[0] == "comment":
-                    b.comment(sp[1])
-                else:
-                    b.ir.add_gate(gen.build_stmt(sp, funcs))
-            c = b.to_circuit()
-        except Exception as e:  # noqa: BLE001
-            ctx.oracle_fail("user", case, f"builder refused a listed user gate: {type(e).__name__}: {e}", None)
+        built = build_through_builder(ctx, case, funcs)
+        if built is None:
             continue
-        ref = gen.build_circuit(nq, 1, specs, funcs)
-        if ser.struct_diff(implrun.canon_post(c.ir.statements), implrun.canon_post(ref.ir.statements), 0):
-            ctx.oracle_fail("user", case, "builder and direct construction disagree", None)
-            continue
-        before = list(c.ir.statements)
-        ustmt = before[pos]
-        uname, uargs = ustmt.generator.__name__, ser.canon_args(ustmt.arguments)
         perm = list(range(nq))
         rng.shuffle(perm)
-        pre_ser = ser.ser_stmts(c.ir.statements)
-        err = None
-        called = []
-        try:
-            if p is None:
-                pass
-            elif p[0] == "map":
-                implrun.apply_pass(c, ["map", perm])
-            elif p[0] == "replace_user":
-                def rule(*args):
-                    called.append(args)
-                    return [funcs[uname](*args)]
-                c.replace(funcs[uname], rule)
-            else:
-                implrun.apply_pass(c, p)
-        except Exception as e:  # noqa: BLE001
-            err = implrun.errkind(e)
-        after = list(c.ir.statements)
-        # model correspondence for the passes the model has
-        eq = None
-        if p is not None and p[0] in ("decompose", "merge", "map"):
-            mp = ["map", perm] if p[0] == "map" else p
-            (margin, r), = model.call_many([implrun.model_request(mp, nq, pre_ser)])
-            merr, mpost = implrun.model_outcome(mp, r)
-            d = None
-            if (err is None) != (merr is None):
-                d = f"impl error={err} model error={merr}"
-            elif mpost is not None:
-                d = ser.struct_diff(implrun.canon_post(after), mpost, 3e-7)
-            if d:
-                ctx.disagree("user", case, d, margin)
-            eq = d is None
-        if err is not None:
-            continue        # decomposition failures are C01's concern
-        # --- operation preserved (treated purely through its operation)
-        qperm = {q: perm[q] for q in range(nq)} if p and p[0] == "map" else None
-        # mapping mutates the statement objects in place: compare with the independently built reference circuit
-        ok, why = oracles.kraus_equivalent(list(ref.ir.statements), after, 3e-5 * (1 + len(after)), qubit_perm=qperm)
-        if not ok:
-            ctx.oracle_fail("user", case, "operation changed: " + why, eq)
-            continue
-        # --- name and arguments kept by passes that do not rewrite it; relabelled in both descriptions by mapping
-        survivors = [s for s in after if s is ustmt]
-        rewritten_ok = p is not None and ((p[0] == "decompose" and scope_rewrites(p[1], ustmt)) or
-                                            (p[0] == "merge" and type(ustmt).__name__ == "BlochSphereRotation") or p[0] == "replace_user")
-        if not survivors and not rewritten_ok:
-            ctx.oracle_fail("user", case, "the user gate disappeared in a pass that does not rewrite it", eq)
-            continue
-        if p and p[0] == "replace_user":
-            if len(called) != 1 or ser.canon_args(called[0]) != uargs:
-                ctx.oracle_fail("user", case, f"replace() keyed on the user gate called the rule {len(called)} times / with other arguments", eq)
-                continue
-        for s in survivors:
-            if s.generator.__name__ != uname:
-                ctx.oracle_fail("user", case, "user gate lost its name", eq)
-            want_args = uargs
-            if p and p[0] == "map":
-                want_args = [("q", perm[a[1]]) if a[0] == "q" else a for a in uargs]
-                if oracles.stmt_qubits(s) != [perm[q] for q in gen.spec_qubits(u)]:
-                    ctx.oracle_fail("user", case, "mapping did not relabel the user gate's semantic qubits", eq)
-            if ser.canon_args(s.arguments) != want_args:
-                ctx.oracle_fail("user", case, f"user gate arguments {ser.canon_args(s.arguments)} != {want_args}", eq)
-        # --- text outputs: one well-formed line per gate
-        named_only = all(getattr(s, "arguments", 1) is not None for s in after if oracles.is_gate(s))
-        txt = str(c)
-        (m3, r3), = model.call_many([["write3", nq, 1, ser.ser_stmts(after)]])
-        mv = ser.canon(r3)
-        from harness.props.text_common import normalize_anonymous
-
-        if not (mv[0] == "ok" and mv[1][1] == normalize_anonymous(txt)):
-            ctx.disagree("user_text", case, f"cQASM 3 text differs from the model's:\n{txt}\n---\n{mv}")
-        lines3 = txt.split("\n")
-        for s in survivors:
-            v3, v1 = expected_lines(s)
-            if v3 not in lines3:
-                ctx.oracle_fail("user_text", case, f"cQASM 3 line `{v3}` not written:\n{txt}", eq)
-                break
-            if named_only:
-                t1 = c.export(ExportFormat.CQASM_V1)
-                if v1 not in t1.split("\n"):
-                    ctx.oracle_fail("user_text", case, f"cQASM 1 line `{v1}` not written:\n{t1}", eq)
-                    break
+        check_user_pass(ctx, case, built[0], built[1], perm, funcs)
     ctx.suite("user_gates", cases=n_cases)
     # --- equality purely through the operation: the same user gate with arguments that differ but denote the same
     # operation compares equal; different operations compare unequal; a user gate equals the default gate it denotes
@@ -274,52 +348,20 @@ def run(ctx):
                      (["named", "swp", [a, b]], ["named", "swp", [b, a]], True),
                      (["named", "cph", [a, 1, b]], ["named", "cph", [a, 2, b]], False),
                      (["named", "flip", [a]], ["named", "X", [a]], True)]
-    seen_eq = set()
     objs_l = [gen.build_stmt(l, funcs) for l, _, _ in eq_cases]
     objs_r = [gen.build_stmt(r, funcs) for _, r, _ in eq_cases]
-    mres = model.call_many([["gate_eq", ser.ser_gate(x), ser.ser_gate(y)] for x, y in zip(objs_l, objs_r)])
-    for (l, r, want), x, y, (mg, mr) in zip(eq_cases, objs_l, objs_r, mres):
-        case = {"left": l, "right": r, "kind": "equality"}
-        ctx.seen(case)
-        got = bool(x == y)
-        mv = ser.canon(mr)
-        eqm = mv[0] == "ok" and (mv[1] == "true") == got
-        if not eqm:
-            ctx.disagree("user_equality", case, f"impl {got} model {mv}", mg)
-        if got != want or bool(y == x) != want:
-            ctx.oracle_fail("user_equality", case, f"== is {got} / {bool(y == x)}, the operations are {'equal' if want else 'different'}", eqm)
+    mres = model.call_many([equality_request(x, y) for x, y in zip(objs_l, objs_r)])
+    for (l, r, want), x, y, mr in zip(eq_cases, objs_l, objs_r, mres):
+        check_user_equality(ctx, {"left": l, "right": r, "kind": "equality"}, want, x, y, mr)
     ctx.suite("user_equality", cases=len(eq_cases))
     # --- two programs of one process define a gate of the same name differently: each builder must build ITS definition
-    from opensquirrel.ir import BlochSphereRotation, QubitLike, named_gate
-
     n_two = 0
     for k in range(ctx.pick(6, 40)):
         axes = [(1, 0, 0), (0, 1, 0), (0, 0, 1)]
         ax_a, ax_b = rng.sample(axes, 2)
-
-        def mk(ax):
-            @named_gate
-            def tilt(q: QubitLike, theta: Float) -> BlochSphereRotation:
-                return BlochSphereRotation(qubit=q, axis=ax, angle=theta.value, phase=0)
-            return tilt
-        fa, fb = mk(ax_a), mk(ax_b)
         t = rng.choice([0.7, -1.1, 2.0])
-        ba = CircuitBuilder(2, gate_set=[*gate_set, fa])
-        ba.tilt(0, Float(t))
-        bb = CircuitBuilder(2, gate_set=[*gate_set, fb])
-        bb.tilt(1, Float(t))
-        case = {"kind": "same_name_two_gate_sets", "axis_a": ax_a, "axis_b": ax_b, "theta": t}
-        ctx.seen(case)
+        check_same_name(ctx, {"kind": "same_name_two_gate_sets", "axis_a": ax_a, "axis_b": ax_b, "theta": t}, funcs)
         n_two += 1
-        ga, gb = ba.to_circuit().ir.statements[0], bb.to_circuit().ir.statements[0]
-        ok = np.allclose(ga.axis.value, ax_a) and np.allclose(gb.axis.value, ax_b) and gb.generator is fb and ga.generator is fa
-        if not ok:
-            ctx.oracle_fail("user", case, "a builder built another gate set's definition of a gate with the same name", None)
-        try:
-            CircuitBuilder(2).tilt(0, Float(t))
-            ctx.oracle_fail("user", case, "a builder accepted a user gate that is not in its gate set", None)
-        except Exception:  # noqa: BLE001
-            pass
     ctx.suite("same_name_two_gate_sets", cases=n_two)
     ctx.sample({"user_gates": sorted(USER_SIG), "example": rand_user_spec(rng, 3)})
 
@@ -331,6 +373,33 @@ def scope_rewrites(dec, g):
     return cls == "BlochSphereRotation"
 
 
+def replay_user(ctx, case, funcs):
+    pub = {k: case[k] for k in ("nq", "nb", "specs", "pass")}
+    if pub["pass"] and pub["pass"][0] == "map" and "perm" not in case:
+        return {"fails": False, "not_rerun": True, "note": "record without the permutation that was drawn for the mapping pass"}
+    built = build_through_builder(ctx, pub, funcs)
+    if built is not None:
+        check_user_pass(ctx, pub, built[0], built[1], case.get("perm", list(range(case["nq"]))), funcs)
+    return None
+
+
 def replay(ctx, payload):
-    return {"case": payload.get("case"), "fails": payload.get("kind") == "oracle",
-            "note": "re-run `check.py C20` with the recorded seed to reproduce (user gate functions are defined in the harness)"}
+    from harness import framework
+
+    suite, case = framework.replay_target(payload)
+    if case is None:
+        return framework.replay_nothing(payload)
+    funcs = user_functions()
+    if case.get("kind") == "same_name_two_gate_sets":
+        check_same_name(ctx, case, funcs)
+    elif case.get("kind") == "equality":
+        if "equal_operations" not in case:
+            return framework.replay_nothing(payload, "record without the expected answer")
+        x, y = gen.build_stmt(case["left"], funcs), gen.build_stmt(case["right"], funcs)
+        check_user_equality(ctx, {k: case[k] for k in ("left", "right", "kind")}, case["equal_operations"], x, y,
+                            model.call_many([equality_request(x, y)])[0])
+    else:
+        out = replay_user(ctx, case, funcs)
+        if out is not None:
+            return out
+    return framework.replay_result(ctx)
